@@ -64,6 +64,10 @@ CORPORA = {
                       family="restfield", trace="RestFieldTrace.tla", tracecfg="RestFieldTrace.cfg"),
     # E5: client-side exchanges recorded while the repository's own tests run, judged by SuiteTrace.tla
     "suite": dict(record_suite=True, family="suite", trace="SuiteTrace.tla", tracecfg="SuiteTrace.cfg"),
+    # binding of the byte-grain model FramingT.tla: explicit, TLC-generated segmentations of the handler's stream into
+    # Write calls, replayed exactly; FramingTTrace folds the model's Write / Close steps over the recorded calls
+    "framingt": dict(gen="MCFramingTGen.tla", cfg={"quick": "framingtgen_quick.cfg", "thorough": "framingtgen_thorough.cfg"},
+                     family="framingt", trace="FramingTTrace.tla", tracecfg="FramingTTrace.cfg"),
     "stream_headers": dict(gen="MCStream.tla", cfg={"quick": "stream_headers_quick.cfg", "thorough": "stream_headers_thorough.cfg"},
                            family="stream", trace="StreamTrace.tla", tracecfg="StreamTrace.cfg"),
 }
@@ -79,7 +83,7 @@ PROPS = {
     "C05": dict(corpora=["stream_headers", "stream_errors", "suite"], prefix="C05."),
     "C06": dict(corpora=["router", "router_wild"], prefix="C06."),
     "C07": dict(corpora=["restbind", "httpbody", "restfield"], prefix="C07."),
-    "C08": dict(corpora=["stream_chunks", "limits"], prefix="C08.",
+    "C08": dict(corpora=["stream_chunks", "limits", "framingt"], prefix="C08.",
                 design=[("MCFraming.tla", "framing_%s_fixed.cfg" % p) for p in ("R1", "R2", "R3", "R4", "R5", "R5e")] +
                        [("MCFramingW.tla", "framingw_%s.cfg" % p) for p in ("W1_reframe", "W2_reframe_trailer", "W3_strip",
                                                                            "W4_strip_trailer", "W5_synth", "W6_measure", "W7_pass")] +
@@ -93,13 +97,14 @@ PROPS = {
                 # pinned tree on the request side, a right-aligned envelope prefix on the response side
                 whatif=[("MCFraming.tla", "framing_R2_asbuilt.cfg"), ("MCFramingW.tla", "framingw_W1_reframe_rightcopy.cfg"),
                         ("MCFramingTR.tla", "framingtr_R1_env_restart.cfg"), ("MCFramingTR.tla", "framingtr_R1_empty_is_eof.cfg")]),
-    "C09": dict(corpora=["stream_faults", "stream_zzfaults", "httpbody"], prefix="C09.",
+    "C09": dict(corpora=["stream_faults", "stream_zzfaults", "httpbody", "framingt"], prefix="C09.",
                 # the converting writer: a handler that stops inside an envelope or a message is reported (CutIsReported);
                 # the what-if whose Close looks at a partial envelope only must be rejected
                 design=[("MCFramingT.tla", "framingt_T1_recode.cfg"), ("MCFramingT.tla", "framingt_T2_recode_trailer.cfg"),
-                        ("MCFramingTR.tla", "framingtr_R2_env_cut.cfg")],
-                whatif=[("MCFramingT.tla", "framingt_T1_close_ignores_payload.cfg")]),
-    "C10": dict(corpora=["limits"], prefix="C10.",
+                        ("MCFramingT.tla", "framingt_T7d_declared.cfg"), ("MCFramingTR.tla", "framingtr_R2_env_cut.cfg")],
+                # (cl_ignored: the tree before fix - a declared Content-Length is not compared with the converted body)
+                whatif=[("MCFramingT.tla", "framingt_T1_close_ignores_payload.cfg"), ("MCFramingT.tla", "framingt_T7d_cl_ignored.cfg")]),
+    "C10": dict(corpora=["limits", "framingt"], prefix="C10.",
                 # the converting writer never holds more than L bytes of a message, whatever the Write sizes (BufferBounded,
                 # OversizeRefused); the what-if that checks the announced length only at flush time must be rejected
                 design=[("MCFramingT.tla", "framingt_T4_oversize_in.cfg"), ("MCFramingT.tla", "framingt_T5_oversize_out.cfg"),
@@ -115,7 +120,7 @@ PROPS = {
     "C14": dict(corpora=["conc"], prefix="C14.", design=[("MCPool.tla", "pool_conc2.cfg")],
                 design_thorough=[("MCPool.tla", "pool_conc.cfg")]),
     "C15": dict(corpora=["history"], prefix="C15.", design=[("MCPool.tla", "pool_seq.cfg")]),
-    "C16": dict(corpora=["flow"], prefix="C16.", design=[("Flow.tla", "flow_ok.cfg"), ("Flow.tla", "flow_cstream_ok.cfg"),
+    "C16": dict(corpora=["flow", "framingt"], prefix="C16.", design=[("Flow.tla", "flow_ok.cfg"), ("Flow.tla", "flow_cstream_ok.cfg"),
                                                           ("MCFramingW.tla", "framingw_W1_reframe.cfg"),
                                                           ("MCFramingW.tla", "framingw_W3_strip.cfg"),
                                                           ("MCFramingT.tla", "framingt_T1_recode.cfg")],
